@@ -13,7 +13,8 @@ def one(sid, tier):
     meta = json.load(open(f'{HOME}/seeded/{sid}/meta.json'))
     prop = meta['property']
     t0 = time.time()
-    p = subprocess.run([f'{HOME}/tools/try_patch.py', f'{HOME}/seeded/{sid}/patch.diff', '--tier', tier, prop], capture_output=True, text=True)
+    p = subprocess.run([f'{HOME}/tools/try_patch.py', f'{HOME}/seeded/{sid}/patch.diff', '--tier', tier, prop], capture_output=True, text=True,
+                       env=dict(os.environ, VERIF_STOP_AT_FIRST_VIOLATION='1'))
     m = re.search(r'== %s: exit=(\d+)' % prop, p.stdout)
     rc = int(m.group(1)) if m else None
     sigs = re.findall(r'sig=(\S+)', p.stdout)
@@ -30,7 +31,7 @@ def main():
     ids = [i for i in ids if json.load(open(f'{HOME}/seeded/{i}/meta.json'))['property'] in claimed]
     path = f'{HOME}/seeded/RESULTS.json'
     results = json.load(open(path)) if os.path.exists(path) else {}
-    with ThreadPoolExecutor(max_workers=2) as ex:
+    with ThreadPoolExecutor(max_workers=3) as ex:
         for sid, r in ex.map(lambda s: one(s, tier), ids):
             results[sid] = r
             print(f"{sid:8} {r['property']} exit={r['exit']} detected={r['detected']} {r['wall_s']}s {r['signatures'][:2]}")
